@@ -35,6 +35,9 @@ var (
 	serial   int
 )
 
+// thresholds >= noConf stand for a cluster without health-check conf
+const noConf = 1000000
+
 func handler(w http.ResponseWriter, r *http.Request) {
 	mu.Lock()
 	mine := r.URL.Path == curPath
@@ -173,7 +176,16 @@ func impl(in hv.Val) hv.Val {
 				released = true
 			}
 		case 6:
-			setThr(cluster, path, int(hv.AsInt(op[1])), int(hv.AsInt(op[2])))
+			ft := int(hv.AsInt(op[1]))
+			if ft >= noConf && atomic.LoadInt32(&pending) == 0 && back.Avail() {
+				// "no check conf for this cluster": getCheckConf returns nil, UpdateStatus ignores failures - the same
+				// behaviour as an unreachable threshold (only done while no checker runs: its loop would sleep 1 s)
+				mu.Lock()
+				delete(confs, cluster)
+				mu.Unlock()
+			} else {
+				setThr(cluster, path, ft, int(hv.AsInt(op[2])))
+			}
 		default:
 			return hv.Err(0)
 		}
@@ -232,7 +244,12 @@ func gen(r *hv.Rng, i int, tier string) (string, hv.Val) {
 			ops = append(ops, hv.L{hv.I(5)})
 			rel = true
 		default:
-			ops = append(ops, hv.L{hv.I(6), hv.I(thr(4)), hv.I(thr(3))})
+			ft := thr(4)
+			if r.Chance(1, 5) {
+				ft = noConf
+				class = "no-conf"
+			}
+			ops = append(ops, hv.L{hv.I(6), hv.I(ft), hv.I(thr(3))})
 			if class == "plain" || class == "burst" {
 				class = "thr-change"
 			}
